@@ -194,8 +194,21 @@ def tail_loop(I):
     f = I.func_info(month_body(I))
     loops = [n for n in ast.walk(f.node) if isinstance(n, (ast.For, ast.While))]
     loops.sort(key=lambda n: (n.lineno, n.col_offset))
-    hits = [(k, n) for k, n in enumerate(loops) if "calculate_final_population" in ast.unparse(n) and ast.unparse(n.target) == "animal"
-            and not any(isinstance(m, ast.For) for m in ast.walk(n) if m is not n)]
+    # (the loop's own text together with the module-level helper functions it calls by name: a body moved into a helper
+    # is still this loop)
+    mod = I.import_module("src.food_system.animal_populations")
+    helpers = {name: v.node for name, v in mod.ns.items() if isinstance(v, FuncVal) and isinstance(getattr(v, "node", None), ast.FunctionDef)}
+
+    def text(n, depth=0):
+        out = [ast.unparse(n)]
+        if depth < 3:
+            for c in ast.walk(n):
+                if isinstance(c, ast.Call) and isinstance(c.func, ast.Name) and c.func.id in helpers and c.func.id != "main":
+                    out.append(text(helpers[c.func.id], depth + 1))
+        return "\n".join(out)
+
+    hits = [(k, n) for k, n in enumerate(loops) if ast.unparse(n.target) == "animal"
+            and not any(isinstance(m, ast.For) for m in ast.walk(n) if m is not n) and "calculate_final_population" in text(n)]
     if len(hits) != 1:
         raise RuntimeError("month body: home-kill / final population loop not found")
     return hits[0]
